@@ -927,5 +927,6 @@ func TestC25(t *testing.T) {
 		"signature validity = real ECDSA signatures over the real signature input; the verifier is a harness object holding every AS key (certificate handling is C24/C38)",
 		"the harness extender appends an unsigned local entry; registration (non-propagation usages) is only observed through the stored usage bits",
 	}
+	c25Wiring(r)
 	r.Finish(12)
 }
